@@ -7,7 +7,7 @@ P="$(realpath "$1")"; ID="$2"; TIER="${3:-quick}"; S=${TRY_DIR:-/tmp/mayverif-tr
 export CARGO_NET_OFFLINE=true
 if [ ! -d "$S/wt" ]; then mkdir -p "$S/out"; git -C /repo worktree prune; git -C /repo worktree add -q --detach "$S/wt" HEAD || exit 2; fi
 git -C "$S/wt" reset -q --hard 2>/dev/null; git -C "$S/wt" checkout -q --detach "$(git -C /repo rev-parse HEAD)"; git -C "$S/wt" checkout -q -- .
-rm -rf "$S/harness"; cp -r /verif/harness "$S/harness"
+rm -rf "$S/harness"; cp -r "${HARNESS_SRC:-/verif/harness}" "$S/harness"
 sed -i "s|path = \"/repo\"|path = \"$S/wt\"|" "$S/harness/Cargo.toml"
 grep -q "$S/wt" "$S/harness/Cargo.toml" || { echo "harness copy still points at /repo"; exit 2; }
 sed -i "s|target-dir = \"/verif/target-hooks\"|target-dir = \"$S/target-hooks\"|" "$S/harness/.cargo/config.toml"
